@@ -479,6 +479,40 @@ pub fn configs(ctx: &Ctx) -> Stats {
     st
 }
 
+/// deterministic lag for the counter: the worker that takes one chosen record is held for 300 ms at the `took` hook
+/// while the others count thousands of records and cross several chunk boundaries
+pub fn lag(ctx: &Ctx) -> Stats {
+    let mut st = Stats::new();
+    let n = ctx.n(4, 24);
+    let mut shapes = HashSet::new();
+    for i in 0..n {
+        if ctx.expired() {
+            st.truncated = true;
+            break;
+        }
+        let mut rng = Rng::keyed(ctx.seed, "c07.lag", i);
+        let k = rng.usize(4, 12);
+        let nrec = rng.usize(3000, 6000);
+        let recs: Vec<Rec> = (0..nrec).map(|j| Rec { id: format!("g{}", j), desc: None, seq: (0..(20 + j % 40)).map(|_| *rng.pick(b"ACGT")).collect() }).collect();
+        let total = total_bases(&recs).max(1);
+        // three to eight chunks
+        let limit = total / rng.range(3, 8);
+        let cfg = CtrCfg { k, threads: [2usize, 3, 8, 4][((i / 2) % 4) as usize], mem_gb: mem_for_limit(limit), acgt: false };
+        let sc = Scratch::new(ctx, "c07g");
+        let inp = write_fa(&sc, &recs);
+        let out = sc.subdir("out");
+        let victim = [0u64, rng.range(2, 200), 1, (nrec / 3) as u64][(i % 4) as usize];
+        let ctl = Controller::new(Mode::Straggle { record: victim, hold_ms: 300 }, cfg.threads, "ctr.took", "ctr.exit", vec![]);
+        let run = run_counter(&inp, &out, &cfg, Some(&ctl));
+        st.case(true, mix(i) ^ hash_bytes(&std::fs::read(&inp).unwrap_or_default()));
+        st.class(&format!("threads={} held record {}", cfg.threads, if victim < 2 { victim.to_string() } else { "later".into() }));
+        judge(&mut st, &run, &recs, &cfg, "lag", &mut shapes, Json::Null);
+        let _ = std::fs::remove_dir_all(&out);
+    }
+    st.set_extra("chunks_x_partitions_seen", shapes_json(&shapes));
+    st
+}
+
 /// many partitions under a small descriptor limit: the stage process lowers RLIMIT_NOFILE to 64 and counts inputs whose
 /// memory ceiling asks for 70-160 partitions with 2-6 workers — "independent of partitioning" includes partition counts
 /// above what the process may keep open at once (the spill writes one partition file at a time per worker)
